@@ -440,6 +440,18 @@ MUTANTS = [
          what="ErrorResponse no longer drops the waiting statement from the cache",
          old='''                            if let Some(_removed) = cache.pop(&prepared_stmt_name) {''',
          new='''                            if let Some(_removed) = cache.peek(&prepared_stmt_name) {'''),
+    dict(id="c08-parse-query-lossy", prop="C08", file="src/messages.rs", expect="C08-R9",
+         what="D19 again: the query text of a Parse is decoded lossily before it is re-encoded",
+         old='''        let query = read_cstring_bytes(&mut cursor)?;
+        let num_params = cursor.get_i16();''', new='''        let query = cursor.read_string()?.into_bytes();
+        let num_params = cursor.get_i16();'''),
+    dict(id="c08-bind-rename-lossy-length", prop="C08", file="src/messages.rs", expect="C08-R9",
+         what="D19 again: Bind::rename measures the lossily decoded statement name",
+         old='''        let prepared_statement = read_cstring_bytes(&mut cursor)?;
+
+        // Calculate new length''', new='''        let prepared_statement = cursor.read_string()?;
+
+        // Calculate new length'''),
     dict(id="c08-rewrite-changes-query", prop="C08", file="src/messages.rs", expect="C08-R6",
          what="rewrite touches more than the name",
          old='''            PREPARED_STATEMENT_COUNTER.fetch_add(1, Ordering::SeqCst)
@@ -451,6 +463,37 @@ MUTANTS = [
     dict(id="c08-insert-under-rewritten-name", prop="C08", file="src/client.rs", expect="C08-R4",
          what="client map keyed by the rewritten name",
          old='''            .insert(client_given_name, (new_parse.clone(), hash));''', new='''            .insert(new_parse.name.clone(), (new_parse.clone(), hash));'''),
+    dict(id="c15-guard-skips-auth-query", prop="C15", file="src/config.rs", expect="C15-S",
+         what="D15 again: is_auth_query_configured does not test auth_query",
+         old='''        self.auth_query.is_some()
+            && self.auth_query_user.is_some()''', new='''        self.auth_query_user.is_some()'''),
+    dict(id="c02-rollback-not-verified", prop="C02", file="src/server.rs", expect="C02-R5",
+         what="D14 again: the transaction state is not re-read after the check-in ROLLBACK",
+         old='''            if self.in_transaction() {
+                self.mark_bad("still in a transaction after ROLLBACK");
+            }
+''', new=''''''),
+    dict(id="c01-rollback-not-verified", prop="C01", file="src/server.rs", expect="C01-R7",
+         what="D14 again (seen from C01): a connection still in a transaction after ROLLBACK is reused",
+         old='''            if self.in_transaction() {
+                self.mark_bad("still in a transaction after ROLLBACK");
+            }
+''', new='''            if self.in_transaction() {
+                warn!("still in a transaction after ROLLBACK");
+            }
+'''),
+    dict(id="c13-primary-reads-value-as-written", prop="C13", file="src/query_router.rs", expect="C13-R4",
+         what="D18 again: the SET PRIMARY READS keyword is compared as written",
+         old='''                // The command is recognized whatever its case, so is its value.
+                match value.to_ascii_lowercase().as_ref() {''', new='''                match value.as_ref() {'''),
+    dict(id="c11-parse-length-from-count", prop="C11", file="src/messages.rs", expect="C11-R7",
+         what="D21 again: frame length of a re-encoded Parse computed from the client's count",
+         old='''            + 4 * parse.param_types.len(); // what is written below, whatever count the client announced''',
+         new='''            + 4 * parse.num_params as usize;'''),
+    dict(id="c11-parser-recursion-raised", prop="C11", file="src/query_router.rs", expect="C11-R6",
+         what="the SQL parser's recursion limit is raised",
+         old='''        match Parser::parse_sql(&PostgreSqlDialect {}, &query) {''',
+         new='''        match Parser::new(&PostgreSqlDialect {}).with_recursion_limit(512).try_with_sql(&query).and_then(|mut p| p.parse_statements()) {'''),
     # ------------------------------------------------------------------ C12
     dict(id="c12-raw-value", prop="C12", file="src/server.rs", expect="C12-R2",
          what="value interpolated without escaping again",
